@@ -51,6 +51,10 @@ func genC07(t *rapid.T) CaseC07 {
 		c.Map = instantiate(t, sh).(map[string]interface{})
 		c.Steps = genShapePath(t, sh, indexed)
 	}
+	if rapid.IntRange(0, 7).Draw(t, "wrapdeep") == 0 && len(c.Steps) > 0 {
+		c.Src += "+deep"
+		c.Map, c.Steps = wrapDeep(t, c.Map, c.Steps)
+	}
 	if rapid.IntRange(0, 7).Draw(t, "setsize") == 0 {
 		c.ArraySize = rapid.SampledFrom([]int{1, 31, 33, 40, 64, 100}).Draw(t, "asize")
 	}
@@ -191,9 +195,19 @@ func checkC07(c CaseC07, info *Info) *Failure {
 	if jerr != nil {
 		return failf("error", "Json() failed on %s: %v", canon(c.Map), jerr)
 	}
-	jv, jverr := j2x.JsonValuesForKeyPath(jb, path)
-	if jverr != nil || !compareVals(jv, want, wild) {
-		return failf("json-wrapper-mismatch", "map %s path %q j2x.JsonValuesForKeyPath=%s,%v want %s", canon(c.Map), path, canon(jv), jverr, canon(want))
+	firstKey := ""
+	if len(c.Steps) > 0 {
+		firstKey = c.Steps[0].Name
+	}
+	// the text as encoded; a text of the same meaning that spells a top-level key twice (the decoder keeps the last);
+	// and the text handed over in a buffer the caller has used for another document of the same length before
+	docs := [][]byte{jb, dupTopKey(jb, subject, firstKey)}
+	docs = append(docs, reuseBuffer(jb, false, func(b []byte) { j2x.JsonValuesForKeyPath(b, path) }))
+	for _, d := range docs {
+		jv, jverr := j2x.JsonValuesForKeyPath(d, path)
+		if jverr != nil || !compareVals(jv, want, wild) {
+			return failf("json-wrapper-mismatch", "map %s path %q j2x.JsonValuesForKeyPath(%s)=%s,%v want %s", canon(c.Map), path, d, canon(jv), jverr, canon(want))
+		}
 	}
 	if !hasEmptyKeyOrOdd(c.Map) {
 		xb, xerr := mxj.Map(copyMap(c.Map)).Xml()
@@ -205,6 +219,7 @@ func checkC07(c CaseC07, info *Info) *Failure {
 					steps2 = append([]Step{{Name: "doc", Index: -1}}, c.Steps...)
 				}
 				want2 := refEval(copyMap(m2), steps2)
+				xb = reuseBuffer(xb, true, func(b []byte) { x2j.XmlValuesForPath(b, pathString(steps2)) })
 				xv, xverr := x2j.XmlValuesForPath(xb, pathString(steps2))
 				if xverr != nil || !compareVals(xv, want2, wild) {
 					return failf("xml-wrapper-mismatch", "xml %s path %q x2j.XmlValuesForPath=%s,%v want %s", xb, pathString(steps2), canon(xv), xverr, canon(want2))
